@@ -148,6 +148,10 @@ def generate(streams: core.Streams, tier: str) -> dict:
         nm = next(k for k in t["detection"] if k != "condition")
         if isinstance(t["detection"][nm], dict):
             t["detection"][nm]["EmptyList"] = []  # an empty value list
+    if "detection" in t and gen.chance(w, 0.05):
+        nm = next(k for k in t["detection"] if k != "condition")
+        if isinstance(t["detection"][nm], dict):
+            t["detection"][nm]["EventID|re"] = gen.pick(w, [4624, 1.5, [1, "a.*"]])  # a YAML number as regular expression
     return {"kind": kind, "documents": docs, "target": target, "transformation": transformation, "vars": pvars,
             "with_source": gen.chance(s, 0.15)}
 
